@@ -8,8 +8,8 @@ def plan(tier, seed):
              for f, m in (("f64", "partial"), ("f32", "complete"))]
     seam24 = [H("c01::fast_path_f64", "seam 2: is_fast_path/try_fast_path only admit exactly representable operands; power tables equal 10^e", "all Number{mantissa: u64, exponent: i64}"),
               H("c01::fast_path_f32", "", "all Number"), H("c01::pack_f64", "seam 4: (mant, biased exp) -> IEEE bits", "all"), H("c01::pack_f32", "", "all")]
-    groups = [KGroup("D", seam1, timeout=900 if tier == "quick" else 7200, jobs=2, mem_gb=10, stubbing=True, label="seam 1"),
-              KGroup("D", seam24, timeout=600, jobs=4, mem_gb=8, label="seams 2 and 4")]
+    groups = [KGroup("D", seam1, timeout=900 if tier == "quick" else 7200, jobs=2, mem_gb=14, stubbing=True, label="seam 1"),
+              KGroup("D", seam24, timeout=600, jobs=4, mem_gb=14, label="seams 2 and 4")]
     # seam 3: Eisel-Lemire rows. Rows 0..27 at full 64-bit width, other rows at <= 12 significant bits.
     ks = []
     if tier == "quick":
